@@ -69,8 +69,7 @@ Proof. intros res b H. exact (q_of_ok res H b). Qed.
 Print Assumptions C37_counter_chunk_format.
 
 (* Level 2 (1h), structure: for every raw counter series, every pair of
-   resolutions and every values of targetChunkCount at both levels (second-level batch size
-   >= 1): the second-level counter chunks are, per part of consecutive first-level chunks,
+   resolutions and every value of targetChunkCount at both levels: the second-level counter chunks are, per part of consecutive first-level chunks,
    of the documented format [q2_of]: they start with the part's FIRST RAW sample, end with
    the part's LAST RAW value at the part's last timestamp ("a chunk's first and last counter
    values are the true values of the original series ... even across multiple aggregation
@@ -80,7 +79,7 @@ Print Assumptions C37_counter_chunk_format.
    are adj_at needs nesting windows and is C37_level2 below. *)
 Theorem C37_level2_structure : forall res1 res2 nc1 nc2 data l1 l2,
   0 < res1 -> 0 < res2 ->
-  valid_counter res1 data -> (1 <= length l1 / nc2)%nat ->
+  valid_counter res1 data ->
   level1 res1 nc1 data = Some l1 -> level2 res2 nc2 l1 = Some l2 ->
   exists batches parts,
     l1 = map (float_batch cw res1) batches /\ concat batches = keep_nonnan data /\
@@ -93,15 +92,14 @@ Proof. intros res1 res2 nc1 nc2 data l1 l2 H1 H2. exact (level2_structure res1 r
 Print Assumptions C37_level2_structure.
 
 (* Level 2 (1h), values.  When the target resolution is a multiple of the first one
-   (5m -> 1h: the 5m windows nest in the 1h windows) and the second-level batch size is
-   >= 1: reading the counter aggregate after TWO levels of downsampling yields, at every
+   (5m -> 1h: the 5m windows nest in the 1h windows): reading the counter aggregate after TWO levels of downsampling yields, at every
    emitted timestamp, the raw counter adjusted for all resets up to the last raw sample at
    or before it; timestamps strictly increasing; the last value is the total adjusted
    counter.  For every raw counter series, both resolutions, EVERY targetChunkCount at
    both levels. *)
 Theorem C37_level2 : forall res1 k nc1 nc2 data l1 l2,
   0 < res1 -> 0 < k ->
-  valid_counter res1 data -> (1 <= length l1 / nc2)%nat ->
+  valid_counter res1 data ->
   level1 res1 nc1 data = Some l1 -> level2 (k * res1) nc2 l1 = Some l2 ->
   exists emitted,
     read_counter l2 = Some emitted /\
@@ -116,25 +114,24 @@ Print Assumptions C37_level2.
 (* ... and through the level-2 clause of the check's boolean predicate. *)
 Theorem C37_level2_pred : forall res1 k nc1 nc2 data l1 l2,
   0 < res1 -> 0 < k ->
-  valid_input res1 (k * res1) data = true -> (1 <= length l1 / nc2)%nat ->
+  valid_input res1 (k * res1) data = true ->
   level1 res1 nc1 data = Some l1 -> level2 (k * res1) nc2 l1 = Some l2 ->
   exists emitted, read_counter l2 = Some emitted /\ level_ok (keep_nonnan data) emitted = true.
 Proof. intros res1 k nc1 nc2 data l1 l2 H1 H2. exact (level2_pred res1 k H1 H2 nc1 nc2 data l1 l2). Qed.
 Print Assumptions C37_level2_pred.
 
 (* Both levels end to end, through the predicate's clauses: for every valid raw counter,
-   resolutions res1 and k*res1, and EVERY targetChunkCount at both levels, the 5m pipeline
-   terminates and its read-out satisfies level_ok; if the second-level batch size is >= 1
-   the 1h pipeline terminates too and its read-out satisfies level_ok. *)
+   resolutions res1 and k*res1, and EVERY targetChunkCount at both levels, both the 5m and
+   the 1h pipeline terminate and their read-outs satisfy level_ok (the second level relies on
+   C38-fix.patch: batch size max(len/numChunks, 1)). *)
 Theorem C37_two_levels : forall res1 k nc1 nc2 data,
   0 < res1 -> 0 < k -> valid_input res1 (k * res1) data = true ->
   exists l1 read1,
     level1 res1 nc1 data = Some l1 /\ read_counter l1 = Some read1 /\
     level_ok (keep_nonnan data) read1 = true /\
-    ((1 <= length l1 / nc2)%nat ->
-     exists l2 read2,
-       level2 (k * res1) nc2 l1 = Some l2 /\ read_counter l2 = Some read2 /\
-       level_ok (keep_nonnan data) read2 = true).
+    exists l2 read2,
+      level2 (k * res1) nc2 l1 = Some l2 /\ read_counter l2 = Some read2 /\
+      level_ok (keep_nonnan data) read2 = true.
 Proof. exact two_levels. Qed.
 Print Assumptions C37_two_levels.
 
@@ -156,10 +153,9 @@ Theorem C37_pred : forall res1 k nc1 nc2 data prog,
   exists l1 read1 pres,
     level1 res1 nc1 data = Some l1 /\ read_counter l1 = Some read1 /\
     run_prog prog (counter_toks l1) acr0 = Some pres /\
-    ((1 <= length l1 / nc2)%nat ->
-     exists l2 read2,
-       level2 (k * res1) nc2 l1 = Some l2 /\ read_counter l2 = Some read2 /\
-       pred_ok (CCounter res1 (k * res1) nc1 nc2 data read1 read2 prog pres) = true).
+    exists l2 read2,
+      level2 (k * res1) nc2 l1 = Some l2 /\ read_counter l2 = Some read2 /\
+      pred_ok (CCounter res1 (k * res1) nc1 nc2 data read1 read2 prog pres) = true.
 Proof. exact full_pred. Qed.
 Print Assumptions C37_pred.
 
@@ -167,7 +163,7 @@ Print Assumptions C37_pred.
    Gen/C37.v on every run). *)
 Theorem C37_batch_sizes_source : forall len nc,
   Z.to_nat (raw_batch_size (Z.of_nat len) (Z.of_nat nc)) = (len / nc + 1)%nat /\
-  Z.to_nat (aggr_batch_size (Z.of_nat len) (Z.of_nat nc)) = (len / nc)%nat.
+  Z.to_nat (aggr_batch_size (Z.of_nat len) (Z.of_nat nc)) = Nat.max (len / nc) 1.
 Proof. intros len nc. split; [apply raw_batch_size_model|apply aggr_batch_size_model]. Qed.
 Print Assumptions C37_batch_sizes_source.
 
